@@ -1,10 +1,14 @@
 import IofloModel.Lemmas.ImportsVia
 import IofloModel.Generated.ImportGraph
 /-! C01 table, chunk 6 of 8 (kernel evaluation of the import interpreter on the generated graph; one file per
-chunk so that lake checks the chunks in parallel). -/
+chunk so that lake checks the chunks in parallel): the cold import of every module of the chunk, and for every
+module `a` of the chunk's pair table the import of each sibling module after `a`. -/
 namespace Ioflo.Imports
 set_option maxRecDepth 1000000 in
-theorem coldChunk6 :
-    coldChunkOk Gen.graph Gen.root (staleFrom Gen.graph) (Gen.domainChunks.getD 6 []) = true := by
+theorem chunk6 :
+    chunkOk Gen.graph Gen.root (staleFrom Gen.graph) (Gen.domainChunks.getD 6 []) (Gen.pairChunks.getD 6 []) = true := by
   decide +kernel
+theorem coldChunk6 :
+    coldChunkOk Gen.graph Gen.root (staleFrom Gen.graph) (Gen.domainChunks.getD 6 []) = true :=
+  cold_of_chunkOk _ _ _ _ _ chunk6
 end Ioflo.Imports
